@@ -194,9 +194,17 @@ class Folder:
                 return env[node.id]
             if node.id in ("True", "False", "None"):
                 return {"True": True, "False": False, "None": None}[node.id]
-            if cls is not None and node.id in cls.attrs:
+            if cls is not None and func is None and node.id in cls.attrs:
                 # names in a class body refer to earlier class-level bindings
                 return self.class_attr(cls, node.id)
+            if cls is not None and func is None and cls.enclosing is not None:
+                # class attribute of a factory-made class bound to a factory parameter: use the parameter's default
+                a = cls.enclosing.args
+                pos = list(getattr(a, "posonlyargs", [])) + list(a.args)
+                defaults = [None] * (len(pos) - len(a.defaults)) + list(a.defaults)
+                for p_, d_ in list(zip(pos, defaults)) + list(zip(a.kwonlyargs, a.kw_defaults)):
+                    if p_.arg == node.id:
+                        return self._eval(d_, module, None, {}, None) if d_ is not None else UNKNOWN
             if func is not None:
                 v = self._local_single_assign(func, node.id, module, cls)
                 if v is not UNKNOWN:
